@@ -88,6 +88,7 @@ func (c *conn) receiveData(msg pmpx.Message) status.Status {
 	if !ok {
 		return status.OK
 	}
+	verifYield("recv.afterGet")
 	return ch.receive(msg)
 }
 
@@ -99,6 +100,7 @@ func (c *conn) receiveWindow(msg pmpx.Message) status.Status {
 	if !ok {
 		return status.OK
 	}
+	verifYield("recv.afterGet")
 	return ch.receive(msg)
 }
 
